@@ -64,6 +64,10 @@ ASSUMPTIONS = ["GUARD FiltersStable: selection / prematch / finalizer requiremen
                "label filters; without the guard nothing is claimed (Props: terminates_stable)",
                "`Env.subs` lists every sub-handler id occurring in stored or returned subrefs (else `writes` may miss a "
                "purge-only PATCH; termination and final_state do not depend on it); no sub-handlers are generated",
+               "`Env.constPatch` (a patch that changes nothing in every cycle, e.g. an on.event handler returning a constant) is "
+               "modelled for the request count and the sleep/touch decision; NOT modelled: the cycle after a keepalive touch that "
+               "wakes nobody then also cleans the touch-dummy, which does change the object (one more PATCH + echo per keepalive "
+               "round) — such tails are skipped by the tie",
                "no foreign finalizers in generated histories (model parameter `foreignFins`, proved for both values)",
                "handlers are instantaneous (no awaits inside scripted handlers): both clock readings of a pass coincide",
                "handlers return no result (no status.<handler> write besides the progress record)",
@@ -513,6 +517,12 @@ def abstract_tail(sc: dict, tr: dict, cap: int) -> tuple[list | None, Any]:
         return None, "relisting-in-tail"
     if any(isinstance(a, list) and a and a[0] == "fn" for h in sc["handlers"] for a in list(h.get("script", [])) + [h.get("default")]):
         return None, "user-patch-fns"          # JSON-patch transformations of the handlers: C08's transport, outside the model
+    const_patch = any(h["kind"] == "event" and isinstance(h.get("default"), list) and len(h["default"]) > 1 for h in sc["handlers"])
+    if const_patch and any(isinstance(a, list) and a[0] == "temp" and len(a) > 1 and a[1] * 64 > cap
+                           for h in sc["handlers"] for a in h.get("script", [])):
+        # not modelled: with a constant no-op patch in every cycle, the cycle after a keepalive touch that wakes nobody
+        # sends that patch TOGETHER with the touch-dummy cleanup — which does change the object: one more PATCH + echo
+        return None, "const-patch+keepalive"
     if f.cross_uid:
         return None, "cross-uid-write"      # not silent: a write of the deleted predecessor's cycle landed on this object
     if any(x != FINALIZER for x in (f.last_body["metadata"].get("finalizers") or [])):
@@ -550,9 +560,10 @@ def abstract_tail(sc: dict, tr: dict, cap: int) -> tuple[list | None, Any]:
         cycles.pop(0)
     # after the release of a deleted object: the echo of the merge half (held back by the barrier)
     gone = f.final is None
+    t_trail = f.end + 1.0
     if gone:
         while cycles and suppressed(cycles[-1]):
-            cycles.pop()
+            t_trail = cycles.pop()["t0"]
     if not cycles:
         return None, "no-tail-pass"
     c0 = cycles[0]
@@ -561,7 +572,7 @@ def abstract_tail(sc: dict, tr: dict, cap: int) -> tuple[list | None, Any]:
     decls = c14._decls(sc)
     owned = [d["id"] for d in decls]
     who = f"op#{f.last_inc}"      # the session identity of the incarnation that lives through the tail
-    ends = [c["t0"] for c in cycles[1:]] + [f.end + 1.0]
+    ends = [c["t0"] for c in cycles[1:]] + [t_trail]
     blind = not any(py_matches(h, f.last_body) for h in _changing(sc))
     change_req = any(h["kind"] == "delete" and not h.get("opts", {}).get("optional") and py_matches(h, f.last_body)
                      for h in _changing(sc))
@@ -636,10 +647,9 @@ def abstract_tail(sc: dict, tr: dict, cap: int) -> tuple[list | None, Any]:
         "marked": bool(c0["body"]["metadata"].get("deletionTimestamp")),
         "blocked": FINALIZER in (c0["body"]["metadata"].get("finalizers") or []),
         "changeReq": change_req, "foreignFins": False,
-        "constPatch": any(h["kind"] == "event" and isinstance(h.get("default"), list) and len(h["default"]) > 1
-                          for h in sc["handlers"]),
+        "constPatch": const_patch,
         "prematch": not blind, "now": passes[0]["now"],
-        "lat": 1 + round(float((sc.get("echo_delay") or {}).get("default", 0.0)) * 64), "cap": cap,
+        "lat": 1 + round(float((sc.get("echo_delay") or {}).get("default", 0.0)) * 64), "cap": cap, "rtt": 1,
         "fuel": n + 8, "universe": owned}]
     return req, {"passes": passes, "quiescent": True}
 
